@@ -2075,6 +2075,15 @@ def clean_dictionary(ddct):
                 raise RuntimeError(
                     "instantation must be defined for each dictionary in cxx_template"
                 )
+            if not isinstance(dct["instantiation"], str):
+                raise RuntimeError(
+                    "instantiation must be a string in cxx_template, found '{}'"
+                    .format(dct["instantiation"]))
+            for key in ["format", "options"]:
+                if dct.get(key) is not None and not isinstance(dct[key], dict):
+                    raise RuntimeError(
+                        "{} must be a dictionary in cxx_template, found '{}'"
+                        .format(key, dct[key]))
             newlst.append(
                 TemplateArgument(
                     dct["instantiation"],
@@ -2112,6 +2121,15 @@ def clean_dictionary(ddct):
                     "decl must be defined for each dictionary in fortran_generic at line {}"
                     .format(linenumber)
                 )
+            if not isinstance(dct["decl"], str):
+                raise RuntimeError(
+                    "decl must be a string in fortran_generic at line {}"
+                    .format(linenumber))
+            for key in ["format", "options"]:
+                if dct.get(key) is not None and not isinstance(dct[key], dict):
+                    raise RuntimeError(
+                        "{} must be a dictionary in fortran_generic at line {}"
+                        .format(key, linenumber))
             newlst.append(
                 FortranGeneric(
                     dct["decl"],
@@ -2277,12 +2295,20 @@ def create_library_from_dictionary(node):
             raise RuntimeError("typemap must be a list")
         for subnode in node["typemap"]:
             # Update fields for a type. For example, set cpp_if
+            if not isinstance(subnode, dict):
+                raise RuntimeError(
+                    "typemap must be a list of dictionaries, found '{}'"
+                    .format(subnode))
             if "type" not in subnode or "fields" not in subnode:
                 raise RuntimeError(
                     "typemap entries must define 'type' and 'fields' at line {}"
                     .format(subnode.get("__line__", "?")))
             key = subnode["type"]
             fields = subnode["fields"]
+            if not isinstance(fields, dict):
+                raise RuntimeError(
+                    "typemap fields must be a dictionary at line {}"
+                    .format(subnode.get("__line__", "?")))
             def_types = typemap.get_global_types()
             ntypemap = def_types.get(key, None)
             if ntypemap:
